@@ -2,6 +2,7 @@
 import netcorr, json
 import common as C
 import sprop, tpconf, corr21, scen
+import refpeer as R
 
 FILES = ['theories/Base.v', 'theories/gen/Codec.v', 'theories/gen/Tp21Gen.v', 'theories/gen/CaGen.v', 'theories/CodecGlue.v',
          'theories/Model21.v', 'theories/Replay21.v', 'theories/Sae21.v', 'proofs/CodecProofs.v', 'proofs/Flat.v', 'proofs/Tp21Seg.v',
@@ -75,6 +76,49 @@ def cmdt_bam_cases(dll, n, rng):
                            dict(t=1000 + off, s=0, op='send', a=[0, 0xFE, 0x32, 6, 0x11, dict(seed=91 + k, len=n2)])],
                    horizon=1000 + off + 12 * int(iv * 1e6) + 1_000_000, inject=[],
                    meta=dict(kind='two-bams', dll=dll, interval=int(iv * 1e6), sources=[0x11]))
+
+
+def tworx_cases(n, rng):
+    """two originators with DIFFERENT window limits in their requests send connection-mode messages to ONE responder at the
+    same time (J1939-21): every clear-to-send of the responder stays within the limit of the request of THAT connection, its
+    own maximum and what remains"""
+    for k in range(n):
+        la, lb = rng.choice([(2, 5), (1, 4), (3, 7), (5, 2)])
+        own = rng.choice([8, 16, 255])
+        na, nb_ = rng.randint(3 * la + 1, 4 * la + 6), rng.randint(2 * lb + 1, 3 * lb + 4)
+        off = rng.choice([100, 700, 3000])
+        yield dict(stacks=[dict(dll='j1939-21', max_cmdt=la, subs=[dict(cid=1, filt=0x10)], cas=[]),
+                           dict(dll='j1939-21', max_cmdt=lb, subs=[dict(cid=2, filt=0x20)], cas=[]),
+                           dict(dll='j1939-21', max_cmdt=own, subs=[dict(cid=3, filt=0x30)], cas=[])], lat=[rng.choice([1, 500])], jit=[1],
+                   script=[dict(t=1000, s=0, op='send', a=[0, 0xD0, 0x30, 6, 0x10, dict(seed=311 + k, len=7 * na - rng.randint(0, 6))]),
+                           dict(t=1000 + off, s=1, op='send', a=[0, 0xD1, 0x30, 6, 0x20, dict(seed=411 + k, len=7 * nb_ - rng.randint(0, 6))])],
+                   horizon=3_000_000, inject=[], meta=dict(kind='two-receptions', own=own, limits={'16': la, '32': lb}))
+
+
+def tworx_oracle(sc, res):
+    v = []
+    m = sc['meta']
+    conn = {}
+    for e in res.trace:
+        if e[2] != 'tx':
+            continue
+        prio_, pg, sa = R.ref_parse_id(e[3])
+        if (pg >> 8) & 0xFF != 0xEC:
+            continue
+        d = list(e[6])
+        da = pg & 0xFF
+        if d[0] == 16:
+            conn[sa] = dict(n=d[3], limit=d[4], nxt=1)
+        elif d[0] == 17 and da in conn and d[1] > 0:
+            c = conn[da]
+            allowed = min(c['limit'], m['own'], c['n'] - d[2] + 1)
+            if d[1] > allowed:
+                v.append(dict(kind='cts-grants-more-than-allowed', to=da, granted=d[1], next=d[2], rts_limit=c['limit'], own_maximum=m['own'], remaining=c['n'] - d[2] + 1))
+                break
+    got = sorted(e[3] for e in res.trace if e[2] == 'cb' and e[1] == 2 and len(e[7]) > 8)
+    if got != [3, 3]:
+        v.append(dict(kind='two-receptions-not-both-delivered', callbacks=got))
+    return v
 
 
 def wake_cases(dll, n):
@@ -230,6 +274,13 @@ def run(out, tier, rng, work):
             for x in twobam_oracle(sc, res):
                 if x['kind'] not in worst:
                     worst[x['kind']] = (x, sc)
+    for sc in tworx_cases(8 if tier == 'quick' else 80, rng):
+        res = scen.run(sc)
+        nb += 1
+        out.add_case(scen.sc_hash(sc), True)
+        for x in tworx_oracle(sc, res):
+            if x['kind'] not in worst:
+                worst[x['kind']] = (x, sc)
     out.extra['bus_time_runs'] = nb
     for kind, (x, sc) in worst.items():
         out.violation('%s: %s' % (kind, json.dumps(x, default=str)[:300]), dict(kind=kind), dict(broke='oracle', scenario=sc, violation=x))
